@@ -339,7 +339,11 @@ def check_scaler_conditioning(ctx):
                             eps = float(F32_EPS) if dtype == torch.float32 else 2.0 ** -52
                             ref = [((v - m_ref) if mode == "norm" else v) / (s_ref + eps) for v in x.tolist()[:8]]
                             got = out.reshape(-1).tolist()[:8]
-                            tolo = [abs(r_) * (bnd + 2.0 ** -23) + 16 * uu * abs(m_ref) / s_ref + 1e-6 for r_ in ref]
+                            # the absolute term is the running-mean tolerance of the check above divided by std (the error of the
+                            # mean grows like √batches; a constant 16·u·|mean|/std was a false alarm at thorough seed 10: mean −150,
+                            # std 0.5, float32, 529 batches: output off by 3.2e-4 with the mean inside its own tolerance)
+                            tolo = [abs(r_) * (bnd + 2.0 ** -23) + max(16.0, 8 * math.sqrt(bi + 2)) * uu * abs(m_ref) / s_ref + 1e-6
+                                    for r_ in ref]
                             if any(abs(a - b) > t for a, b, t in zip(got, ref, tolo)):
                                 ctx.violation("scaler-output", f"RewardScaler('{mode}') output differs from the stated transformation "
                                               "beyond the Welford error bound", {**wit, "code": got[:4], "reference": ref[:4]})
